@@ -57,7 +57,7 @@ SaveOut saveNif(NifFile& nif, const SaveSpec& spec) {
 	SimOBuf ob;
 	ob.failAfter = spec.failAfter;
 	ob.keepLog = spec.keepLog;
-	ob.seekable = !spec.nonSeekable;
+	ob.seekable = !(spec.nonSeekable || simPipeSaves());
 	std::ostream os(&ob);
 	NifSaveOptions o;
 	if (spec.raw) { o.optimize = false; o.sortBlocks = false; }
